@@ -28,11 +28,31 @@ PROPS["C01"] = {
     "units": [
         plain("regress", "packetmap", "TestVerif_C01_Regress_.*"),
         rapid("packetmap-model", "packetmap", "TestVerif_C01_PacketmapModel", 1500, 12000),
+        rapid("write-composition", "rtpconn", "TestVerif_C01_WriteComposition", 600, 5000),
     ],
     "assumptions": [
         "arrivals stay within 8000 packets of the head (strictly inside the 8192 re-sync window the property quantifies over)",
         "sequential interleavings only (no concurrent Write calls on one down track)",
     ],
+}
+
+PROPS["C02"] = {
+    "units": [
+        plain("regress", "rtpconn", "TestVerif_C02_Regress_.*"),
+        rapid("write-composition", "rtpconn", "TestVerif_C02_WriteComposition", 800, 6000),
+        rapid("rewrite-diff", "rtpconn", "TestVerif_C02_RewriteDiff", 8000, 60000),
+    ],
+    "assumptions": ["source packets carry no RTP header extension (the receive loop strips them before caching)",
+                    "picture-id continuity is asserted on in-order histories only, as the statement quantifies"],
+}
+
+PROPS["C03"] = {
+    "units": [
+        plain("regress", "packetmap", "TestVerif_C01_Regress_.*"),
+        rapid("reverse-model", "packetmap", "TestVerif_C03_ReverseModel", 1200, 10000),
+        rapid("nack-composition", "rtpconn", "TestVerif_C03_NackComposition", 800, 6000),
+    ],
+    "assumptions": ["sequential interleavings of Write and gotNACK only"],
 }
 
 NOT_APPLICABLE = {}
